@@ -44,6 +44,10 @@ type Op struct {
 	C int    `json:"c,omitempty"` // client 1..nClients
 	S int    `json:"s,omitempty"` // stream (0 = the reserved word deleteAll)
 	F []int  `json:"f,omitempty"` // feeds of a rule; F[0] = feed of a broadcast
+	// how an EMPTY feed list is written: "" = an empty list ([]string{}, "feeds":[]); "null" = a nil
+	// slice / "feeds":null; "missing" = no feeds member at all (a nil slice at the hub's channel)
+	Form  string `json:"form,omitempty"`
+	Front string `json:"front,omitempty"` // host scenarios: "admin" = through the JSON admin API, else REST
 }
 
 // Rule is one entry of the hub's rule table as observed (names mapped back to numbers; 99 = a name
@@ -61,6 +65,7 @@ type Case struct {
 	Lists  [][]Rule `json:"lists"`           // per executed op other than a broadcast: Hub.Rules afterwards, sorted by stream
 	Listed []bool   `json:"listed"`          // Listed[i]: Lists[i] was read (wide histories skip the table while it is being filled)
 	Quiet  int      `json:"quiet,omitempty"` // the first Quiet operations fill the rule table: no probes, table not read
+	Stats  bool     `json:"stats,omitempty"` // the hub runs with statistics (RunWithStats, as the host does) instead of Run
 	// names: StreamNames[s] / FeedNames[f] when present and non-empty, else stream/s<s> and f<f>
 	StreamNames []string `json:"stream_names,omitempty"`
 	FeedNames   []string `json:"feed_names,omitempty"`
@@ -275,6 +280,9 @@ func (r *runner) exec(c *Case, o Op, idx int) bool {
 		for i, f := range o.F {
 			feeds[i] = c.fname(f)
 		}
+		if len(o.F) == 0 && o.Form != "" {
+			feeds = nil // what "feeds":null or a missing member decodes to
+		}
 		rule := agg.Rule{Stream: c.sname(o.S), Feeds: feeds}
 		return r.do(func(d <-chan struct{}, t <-chan time.Time) bool {
 			select {
@@ -374,7 +382,11 @@ func runHistory(c *Case) {
 				close(r.dead)
 			}
 		}()
-		r.h.Run(closed)
+		if c.Stats {
+			r.h.RunWithStats(closed)
+		} else {
+			r.h.Run(closed)
+		}
 	}()
 	for i, t := range c.Topics {
 		r.cl = append(r.cl, &hub.Client{Hub: r.h.Hub, Name: fmt.Sprintf("c%d", i+1), Topic: c.topicName(t),
@@ -458,6 +470,7 @@ func genHistory(r *lib.Rng, kind string) Case {
 	if r.Chance(2, 5) {
 		nameShapes(r, &c)
 	}
+	c.Stats = r.Bool()
 	registered := make([]bool, nClients)
 	nops := r.Range(6, 30)
 	if kind == "short" {
@@ -465,8 +478,8 @@ func genHistory(r *lib.Rng, kind string) Case {
 	}
 	feeds := func() []int {
 		n := r.Range(1, 3)
-		if kind == "malformed" && r.Chance(1, 4) {
-			n = 0
+		if (kind == "malformed" && r.Chance(1, 4)) || r.Chance(1, 10) {
+			n = 0 // a rule that mutes the whole stream
 		}
 		fs := []int{}
 		for i := 0; i < n; i++ {
@@ -528,6 +541,9 @@ func genHistory(r *lib.Rng, kind string) Case {
 			o = Op{K: "Del", S: stream()}
 		default:
 			o = Op{K: "DelAll"}
+		}
+		if o.K == "Add" && len(o.F) == 0 {
+			o.Form = []string{"", "null", "missing"}[r.Intn(3)]
 		}
 		c.Ops = append(c.Ops, o)
 		for f := 1; f <= nFeeds; f++ {
@@ -823,6 +839,9 @@ func (c *Case) opString(o Op) string {
 		}
 		return fmt.Sprintf("%s c%d", o.K, o.C)
 	case "Add":
+		if len(o.F) == 0 && o.Form != "" {
+			return fmt.Sprintf("Add %s (feeds %s)", c.sname(o.S), o.Form)
+		}
 		return fmt.Sprintf("Add %s %v", c.sname(o.S), o.F)
 	case "Del":
 		return "Del " + c.sname(o.S)
@@ -948,6 +967,12 @@ func main() {
 			wideCases = append(wideCases, genWide(rng.Fork(), K))
 		}
 		// the host scenarios (vw.Stream() with default options, a stream subscriber that stalls)
+		// first the longest: a stream subscriber that takes nothing for 11-12 s (beyond any 10 s horizon)
+		for i := 0; i < a.Pick(1, 3); i++ {
+			c := genHost(rng.Fork())
+			c.Kind, c.Refuse, c.DelayMs = "host-longstall", 3, 4300+200*i // back-off 1+2+4 s, then the upgrade held
+			cases = append(cases, c)
+		}
 		for i := 0; i < a.Pick(4, 24); i++ {
 			cases = append(cases, genHost(rng.Fork()))
 		}
@@ -1054,7 +1079,10 @@ func main() {
 		if c.Starved {
 			res.Count("outcome:subscriber-starved(history cut)")
 		}
-		if c.Kind == "host" {
+		if c.Stats {
+			res.Count("hub:RunWithStats")
+		}
+		if c.Kind == "host" || c.Kind == "host-longstall" {
 			res.Count(fmt.Sprintf("host-stall:refuse%d-delay%dms", c.Refuse, c.DelayMs/500*500))
 		}
 		for k, o := range c.Ops {
